@@ -132,7 +132,39 @@ def chk_adsb12(case, note):
     return None
 
 
+def enum_corpus(ctx):
+    from vlib import corpus
+    for start, _ in corpus.blocks(corpus.adsb(), ctx):
+        yield {"start": start}
+
+
+def chk_corpus(case, note):
+    """decode with the library, re-encode with the reference: must reproduce the transmitted 12-bit field (real airborne positions)"""
+    from vlib import corpus
+    n = 0
+    for m, _icao, tc in corpus.adsb()[case["start"]:case["start"] + 100]:
+        if not 9 <= tc <= 18:
+            continue
+        field = (int(m, 16) >> (112 - 32 - 20)) & 0xFFF
+        r = call(pms.adsb.altitude, m)
+        p = judge(r, gillham.widen12(field), "adsb.altitude(%s) [real frame]" % m)
+        if p:
+            return p
+        alt = r[1]
+        if alt is not None and (field >> 4) & 1:  # Q=1: re-encode
+            nn = (alt + 1000) // 25
+            again = ((nn >> 4) << 5) | (1 << 4) | (nn & 15)
+            if again != field or (alt + 1000) % 25:
+                return "real frame %s: altitude %r ft re-encodes to field %03X, transmitted %03X" % (m, alt, again, field)
+        n += 1
+    note.evals = max(1, n)
+    note.cls("real-tc11")
+    note.nt(n > 0)
+    return None
+
+
 LEGS = [
+    Leg("corpus", chk_corpus, enum=enum_corpus, exhaustive=True, doc="937 real airborne position frames: library altitude agrees with the reference table and re-encodes to the transmitted field"),
     Leg("code13", chk_code13, enum=enum_code13, exhaustive=True, doc="all 8192 codes through common.altitude"),
     Leg("carriers", chk_carriers, enum=enum_carriers, exhaustive=True, doc="all 8192 codes x DF0/4/16/20 x random contexts (altcode, surv.altitude)"),
     Leg("adsb12", chk_adsb12, enum=enum_adsb12, exhaustive=True, doc="all 4096 fields x every TC 9-18 and 20-22 (+ surface TCs) x random contexts"),
